@@ -1,15 +1,17 @@
 """Which units (and extra engines) serve which property, plus MANIFEST metadata."""
-UNITS = ['u_list', 'u_jobs', 'u_tok', 'u_plan', 'u_exp1']
+UNITS = ['u_list', 'u_jobs', 'u_tok', 'u_plan', 'u_exp1', 'u_calc']
 
 PROPERTY_UNITS = {
     'C03': ['u_list'],
     'C06': ['u_jobs'],
-    'C05': ['u_list', 'u_jobs', 'u_tok', 'u_plan', 'u_exp1'],
+    'C05': ['u_list', 'u_jobs', 'u_tok', 'u_plan', 'u_exp1', 'u_calc'],
     'C01': ['u_plan', 'u_exp1'],
     'C13': ['u_plan', 'u_exp1'],
     'C12': ['u_exp1'],
+    'C19': ['u_calc'],
 }
-EXTRA_ENGINES = {}
+from vx import kani_engine as _kani
+EXTRA_ENGINES = {'C19': [('kani', _kani.engine)]}
 HOOK_COMMITS = []
 
 META = {
@@ -60,6 +62,15 @@ META['C12'] = {
             'grammar (cartesian product) and text around {m..n} are not claimed (see DESIGN); expand_home in U-EXP2.',
 }
 
+META['C19'] = {
+    'text': 'Kani proves on the full domain (every i64 pair, every operator; loop-free except the completely unwound 32-step pow loop) that the integer operator kernel '
+            'extracted from eval_int never panics and that + - * are 64-bit wrapping and / is truncating division with / 0 yielding a value; Verus proves that literal '
+            'parsing cannot unwrap an Err and that run_calculator selects float mode iff the line contains a dot.',
+    'note': 'precedence/associativity (pest Pratt parser + grammar.pest) and is_arithmetic (regexes) are external and not covered; i64::pow modelled by its debug-build '
+            'definition; std parse contracts; float arithmetic is IEEE by definition of f64.',
+    'technique': 'Kani full-domain loop-free harness on the mechanically extracted kernel + Verus contracts on the extracted literal/mode code',
+}
+
 _PENDING = 'not yet brought under contract in this revision of /verif (work in progress; see DESIGN.md)'
 NOT_APPLICABLE = {
     'C14': 'parse tree comes from a macro-generated pest parser and the external, lifetime-parameterised pest::iterators::Pair type; no contract within reach',
@@ -67,5 +78,5 @@ NOT_APPLICABLE = {
     'C18': 'semantics live in SQLite\'s SQL parser (bundled C library); SQL is built with format!, outside Verus',
     'C20': 'needs the lineread completer protocol, a populated filesystem and the escaped-word round trip (a recorded C01 violation)',
 }
-for _p in ['C02', 'C04', 'C07', 'C08', 'C09', 'C10', 'C11', 'C15', 'C17', 'C19']:
+for _p in ['C02', 'C04', 'C07', 'C08', 'C09', 'C10', 'C11', 'C15', 'C17']:
     NOT_APPLICABLE.setdefault(_p, _PENDING)
